@@ -4,6 +4,8 @@ import numpy as np
 import emd
 from emd import sift as S
 
+from checks import common
+
 PROPERTY = 'C05'
 FUNCTIONS = ['emd.sift._find_extrema', 'emd.sift.compute_parabolic_extrema', 'emd.sift.get_padded_extrema',
              'emd.sift.interp_envelope(ret_extrema=True)']
@@ -11,7 +13,7 @@ BOUNDS = {
     'quick': 'N <= 6 unbounded symbolic real samples with ties (extrema clause; subsumes every 3-level sequence up to that length), '
              'N = 6 for padding (pad widths 0..5, peaks/troughs/abs_peaks) and for envelopes (pad widths 1..3, {splrep, pchip, mono_pchip} x '
              '{upper, lower, combined}); parabolic refinement: N <= 5 (extrema formula) and N = 5 (envelope grid)',
-    'thorough': 'N <= 8 (extrema), N <= 7 (padding, envelopes, pad widths 1..5), parabolic N <= 6',
+    'thorough': 'N <= 9 (extrema), N <= 7 (padding, envelopes, pad widths 1..5) and N = 8 for pad width 2 (splrep), parabolic N <= 7 (formula) / 6 (envelope)',
 }
 OUTSIDE = 'longer signals; float rounding inside FITPACK/pchip; interp_envelope with pad_width=0 (unpadded interior extrema can never ' \
           'cover samples 0..N-1, the routine raises for every signal - not asserted); custom np.pad options (C06)'
@@ -50,6 +52,15 @@ def configs(tier):
         for mode in ('upper', 'lower'):
             out.append(('env-N5-%s-%s-w2-parabolic' % (method, mode),
                         {'kind': 'env', 'N': 5, 'method': method, 'mode': mode, 'w': 2, 'parab': True}))
+    if not q:
+        # deeper bounds, last so that the tier budget only ever trims these
+        out.append(('extrema-N9', {'kind': 'extrema', 'N': 9}))
+        for mode in ('peaks', 'troughs'):
+            out.append(('pad-N8-w2-%s' % mode, {'kind': 'pad', 'N': 8, 'w': 2, 'mode': mode}))
+        for mode in ('upper', 'lower'):
+            out.append(('env-N8-splrep-%s-w2' % mode, {'kind': 'env', 'N': 8, 'method': 'splrep', 'mode': mode, 'w': 2, 'parab': False}))
+        out.append(('parabolic-N7', {'kind': 'parab', 'N': 7}))
+        out.append(('env-N6-splrep-upper-w2-parabolic', {'kind': 'env', 'N': 6, 'method': 'splrep', 'mode': 'upper', 'w': 2, 'parab': True}))
     return out
 
 
@@ -58,7 +69,7 @@ def strict_maxima(x, N):
 
 
 def interpolant(method, locs, pks, t):
-    I = S.interp     # the stub in symbolic runs, real scipy in replays
+    I = common.interp_lib()     # the exact models in symbolic runs, real scipy in replays
     if method == 'splrep':
         return I.splev(t, I.splrep(locs, pks))
     if method == 'mono_pchip':
